@@ -32,6 +32,27 @@ def worker(case, led):
     if kind == "enum":
         bt, created, shape = T.random_tree(rng, n_nodes, flavour)
         desc = {"shape": repr(shape)}
+    elif kind.startswith("hub"):
+        # a node with many children AND several basis sets (children + sets = 5..7 index columns in its table): "hub:<children>:<sets>:<root|inner>"
+        _, nch, nsets, where = kind.split(":")
+        nch, nsets = int(nch), int(nsets)
+        cnt = [0]
+
+        def mk():
+            i = cnt[0]
+            cnt[0] += 1
+            if flavour == "holstein":
+                return T.make_basis("e" if i % 2 == 0 else "sho2", f"{'e' if i % 2 == 0 else 'v'}{i}", rng)
+            return T.make_basis("spin" if flavour == "spin" else "spinqn", f"s{i}")
+        hub_payload = [mk() for _ in range(nsets)]
+        kids = [[mk()] for _ in range(nch)]
+        if where == "root":
+            shape, payloads = tuple(() for _ in range(nch)), [hub_payload] + kids
+        else:       # the hub hangs below a root that has one more leaf child
+            shape, payloads = (tuple(() for _ in range(nch)), ()), [[mk()], hub_payload] + kids + [[mk()]]
+        bt = T.build_basis_tree(shape, payloads)
+        created = [b for p_ in payloads for b in p_]
+        desc = {"shape": repr(shape), "hub": {"children": nch, "basis_sets": nsets, "position": where}}
     else:
         nb = n_nodes
         created = [T.make_basis("spin" if flavour == "spin" else ("spinqn" if flavour == "spinqn" else ("e" if i % 2 == 0 else "sho")),
@@ -65,7 +86,7 @@ def worker(case, led):
     ntr = 2 if tier == "quick" else 5
     for trial in range(ntr + 1):
         if trial < ntr:
-            terms = real_terms(model, rng, int(rng.integers(1, 6)))
+            terms = real_terms(model, rng, int(rng.integers(1, 6)) if not kind.startswith("hub") else int(rng.integers(5, 10)))
             # the construction must be covariant under a common scale of the coefficients (units): tiny and huge absolute values
             sc = [1.0, 2e-10, 1.0, 3e5][trial % 4] if tier != "quick" else [1.0, 2e-10][trial % 2]
             if sc != 1.0:
@@ -173,6 +194,12 @@ def check(run):
         for nn in (2, 3, 4, 5) if run.tier == "quick" else (2, 3, 4, 5, 6):
             for fl in ("spin", "spinqn", "holstein"):
                 cases.append(("enum", nn, fl, s, run.tier))
+    hubs = [(4, 1), (3, 2), (2, 3)] if run.tier == "quick" else [(4, 1), (3, 2), (2, 3), (5, 1), (4, 2), (3, 3), (5, 2)]
+    for nch, nsets in hubs:
+        for where in ("root", "inner"):
+            for fl in ("spinqn", "spin") if run.tier == "quick" else ("spinqn", "spin", "holstein"):
+                for s in seeds[:2]:
+                    cases.append((f"hub:{nch}:{nsets}:{where}", nch + 1, fl, s, run.tier))
     for ctor in ("linear", "binary", "binary_mctdh", "ternary_mctdh", "mctdh_contract", "t3ns"):
         for nb in (2, 3, 4, 5, 6) if run.tier == "quick" else (2, 3, 4, 5, 6, 7):
             for fl in ("spinqn", "holstein"):
